@@ -25,6 +25,7 @@ use std::time::{Duration, Instant};
 
 use serde_json::{json, Value};
 use tracing_appender::non_blocking::{ErrorCounter, NonBlocking, NonBlockingBuilder, WorkerGuard};
+use tracing_subscriber::fmt::MakeWriter;
 
 const WORKER_NAME: &str = "nbw-c15";
 
@@ -387,11 +388,19 @@ fn main() {
     });
     let mut problems: Vec<String> = Vec::new();
 
-    let (nb, guard) = NonBlockingBuilder::default()
-        .buffered_lines_limit(cap)
-        .lossy(lossy)
-        .thread_name(WORKER_NAME)
-        .finish(SW { sh: sh.clone() });
+    // "defaults": the convenience constructor (NonBlockingBuilder::default(): the driver passes the cap / lossy the
+    // translator read from the source, for the model's side)
+    let defaults = case["defaults"].as_bool().unwrap_or(false);
+    let worker_name: &str = if defaults { "tracing-appende" } else { WORKER_NAME }; // comm is cut at 15 bytes
+    let (nb, guard) = if defaults {
+        tracing_appender::non_blocking(SW { sh: sh.clone() })
+    } else {
+        NonBlockingBuilder::default()
+            .buffered_lines_limit(cap)
+            .lossy(lossy)
+            .thread_name(WORKER_NAME)
+            .finish(SW { sh: sh.clone() })
+    };
     let ec = nb.error_counter();
     let mut guard: Option<WorkerGuard> = Some(guard);
 
@@ -399,7 +408,7 @@ fn main() {
     {
         let t0 = Instant::now();
         loop {
-            if let Some(t) = find_thread_by_name(WORKER_NAME) {
+            if let Some(t) = find_thread_by_name(worker_name) {
                 let mut st = sh.st.lock().unwrap();
                 if st.worker_tid.is_none() {
                     st.worker_tid = Some(t);
@@ -421,7 +430,8 @@ fn main() {
     let mut txs: Vec<mpsc::Sender<PCmd>> = Vec::new();
     let mut next: Vec<usize> = vec![0; np];
     {
-        let mut handles: Vec<NonBlocking> = (1..np).map(|_| nb.clone()).collect();
+        // odd producers get their handle the way the fmt layer does: MakeWriter::make_writer
+        let mut handles: Vec<NonBlocking> = (1..np).map(|p| if p % 2 == 1 { MakeWriter::make_writer(&nb) } else { nb.clone() }).collect();
         handles.insert(0, nb);
         for (p, h) in handles.into_iter().enumerate() {
             let (tx, rx) = mpsc::channel();
